@@ -341,7 +341,8 @@ class FieldWrapper(Wrapper):
             _arg_options["choices"] = list(e.name for e in self.type)
             _arg_options["type"] = str
             # if the default value is an Enum, we convert it to a string.
-            if self.default:
+            # (`is not None`, not truthiness: a member can be falsy, e.g. `IntEnum` value 0.)
+            if self.default is not None:
 
                 def enum_to_str(e):
                     return e.name if isinstance(e, Enum) else e
